@@ -184,7 +184,7 @@ func applyMethodLines(m *model.Method, lines []string) {
 func C05Scenarios(tier string) []*Scenario {
 	k := 2
 	srcs, tgts := c05Sources(), c05Targets()
-	placements := []string{"direct", "reused-by-slice", "pointer-variant", "sibling-pointer-without-lines", "lines-on-pointer-sibling"}
+	placements := []string{"direct", "reused-by-slice", "pointer-variant", "sibling-pointer-without-lines", "lines-on-pointer-sibling", "lines-on-both-variants", "lines-on-value-and-mixed-variant"}
 	if tier != "thorough" {
 		// quick: two setting deviations only on the direct placement; one deviation elsewhere
 	}
@@ -230,6 +230,13 @@ func C05Scenarios(tier string) []*Scenario {
 					case "lines-on-pointer-sibling":
 						add("Convert", sT, tT, nil)
 						add("Ptr", space.P(sT), space.P(tT), lines)
+					case "lines-on-both-variants":
+						// both the value method and its pointer variant carry field settings: one of them would be bypassed
+						add("Convert", sT, tT, lines)
+						add("Ptr", space.P(sT), space.P(tT), lines)
+					case "lines-on-value-and-mixed-variant":
+						add("Convert", sT, tT, lines)
+						add("Mixed", sT, space.P(tT), lines)
 					}
 					// method sources with error need an error result on the method to be usable; covered in C07.
 					out = append(out, sc)
